@@ -113,7 +113,34 @@ enum OpForm {
     Assign,
 }
 
+/// A copy of the user's impl in which the anonymous lifetimes (`'_`) of the header have names.
+///
+/// The derived impls repeat the header types where `'_` is not allowed (`type Output = W<'_>;`, also through `Self`).
+fn name_anonymous_lifetimes(item_impl: &ItemImpl) -> ItemImpl {
+    struct Visitor(Vec<syn::Lifetime>);
+    impl syn::visit_mut::VisitMut for Visitor {
+        fn visit_lifetime_mut(&mut self, i: &mut syn::Lifetime) {
+            if i.ident == "_" {
+                *i = syn::Lifetime::new(&format!("'__l{}", self.0.len()), i.span());
+                self.0.push(i.clone());
+            }
+        }
+    }
+    let mut item_impl = item_impl.clone();
+    let mut visitor = Visitor(Vec::new());
+    syn::visit_mut::VisitMut::visit_type_mut(&mut visitor, &mut item_impl.self_ty);
+    if let Some((_, path, _)) = &mut item_impl.trait_ {
+        syn::visit_mut::VisitMut::visit_path_mut(&mut visitor, path);
+    }
+    for (index, lifetime) in visitor.0.into_iter().enumerate() {
+        let param = syn::GenericParam::Lifetime(syn::LifetimeParam::new(lifetime));
+        item_impl.generics.params.insert(index, param);
+    }
+    item_impl
+}
+
 pub fn build_by_item_impl(attr: TokenStream, item_impl: &ItemImpl) -> Result<TokenStream> {
+    let item_impl = &name_anonymous_lifetimes(item_impl);
     let span = Span::call_site();
     let message = "must be used with `impl {Trait} for {Type}`";
     let t = item_impl
